@@ -31,8 +31,8 @@ func doReplay(path string) {
 	}
 	if f.Replay.Part == "history" {
 		p := openPair()
-		for _, op := range f.Replay.History {
-			if bad := p.step(op); bad != "" {
+		for i, op := range f.Replay.History {
+			if _, bad := p.step(op, i); bad != "" {
 				fmt.Printf("history %v: at %s:\n%s\nVIOLATION property=C12 replay=%s\n", f.Replay.History, op, bad, path)
 				os.Exit(1)
 			}
